@@ -119,3 +119,49 @@ Qed.
 
 Lemma sfold_nu_filter J0 L : sfold J0 (filter is_nu L) = sfold J0 L.
 Proof. exact (sfold_filter L J0). Qed.
+
+(* ------------------------------------------------------------------ what a New|Undo consumer sees of a run *)
+
+(* for a filter with New and Undo: the New / Undo / new+irreversible events delivered are those of a beginning Xa of the
+   raw sequence; all of it when the stream ends waiting *)
+Lemma nu_raw_out_prefix c X res (P : Prop) : has_nu (j_filter c) (j_custom c) = true -> raw_out c X res P ->
+  exists Xa Xb, X = Xa ++ Xb /\ filter is_nu (fst res) = filter is_nu Xa /\ (snd res = JNil -> Xb = [] /\ P).
+Proof.
+  intros Hnu Hro. unfold raw_out in Hro. destruct (snd res) eqn:Er; try contradiction.
+  - destruct Hro as (HP & Hns & Hf). exists X, []. split; [rewrite app_nil_r; reflexivity|].
+    split; [rewrite Hf; apply nu_delivered; assumption | intros _; auto].
+  - destruct Hro as (Hs & Hf). destruct (upto_stop_split c X Hs) as (X1 & e & X2 & EX & Hns & Hse & Hfu).
+    destruct (stops_true c e Hse) as (_ & _ & _ & Hd).
+    rewrite Hf, Hfu. destruct (fst (Joining.chain c e)).
+    + exists (X1 ++ [e]), X2. split; [rewrite EX, <- app_assoc; reflexivity|]. split; [|discriminate].
+      rewrite !filter_app, (nu_delivered c X1 Hnu Hns). reflexivity.
+    + exists X1, (e :: X2). split; [exact EX|]. split; [|discriminate].
+      rewrite app_nil_r. apply nu_delivered; assumption.
+  - destruct Hro as (X1 & X2 & EX & Hns & Hf). exists X1, X2. split; [exact EX|]. split; [|discriminate].
+    rewrite Hf. apply nu_delivered; assumption.
+Qed.
+
+Lemma nu_files_out_prefix c X fend res : has_nu (j_filter c) (j_custom c) = true -> files_out c X fend res ->
+  exists Xa Xb, X = Xa ++ Xb /\ filter is_nu (fst res) = filter is_nu Xa /\ (snd res = JNil -> Xb = [] /\ fend = JNil).
+Proof.
+  intros Hnu [[Hns Hr]|[Hs Hr]]; rewrite Hr; cbn [fst snd].
+  - exists X, []. split; [rewrite app_nil_r; reflexivity|]. split; [apply nu_delivered; assumption | auto].
+  - destruct (upto_stop_split c X Hs) as (X1 & e & X2 & EX & Hns & Hse & Hfu). rewrite Hfu.
+    destruct (fst (Joining.chain c e)).
+    + exists (X1 ++ [e]), X2. split; [rewrite EX, <- app_assoc; reflexivity|]. split; [|discriminate].
+      rewrite !filter_app, (nu_delivered c X1 Hnu Hns). reflexivity.
+    + exists X1, (e :: X2). split; [exact EX|]. split; [|discriminate].
+      rewrite app_nil_r. apply nu_delivered; assumption.
+Qed.
+
+(* the consumer over such a beginning *)
+Lemma nu_fold_prefix J0 X Xa Xb J out : X = Xa ++ Xb -> sfold J0 X = Some J -> filter is_nu out = filter is_nu Xa ->
+  exists Ja, cons_fold_aside (mkCons J0 0 false) (map as_new (filter is_nu out)) = Some (mkCons Ja 0 false) /\
+             sfold J0 Xa = Some Ja.
+Proof.
+  intros EX HJ Ef. rewrite EX in HJ. destruct (sfold_prefix Xa Xb J0 J HJ) as [Ja HJa].
+  exists Ja. split; [|exact HJa]. rewrite Ef. apply cons_of_sfold_nu. rewrite sfold_nu_filter. exact HJa.
+Qed.
+
+Lemma has_nu_not_final c : has_nu (j_filter c) (j_custom c) = true -> j_filter c <> 1.
+Proof. intros Hnu E. unfold has_nu in Hnu. rewrite E in Hnu. cbn in Hnu. discriminate. Qed.
